@@ -871,9 +871,13 @@ def run(ctx):
         'bsp_mass/stiffness_2d/3d and the 2x2/3x3 closed forms into Gallina over Qc (coq/C09/Model.v); B-spline kernels from coq/lib/Bsp.v',
         'Gauss-Legendre tables: exact rational values of numpy\'s doubles, dumped at run time (translate/leggauss.py), '
         'checked in Coq: positive weights, nodes in (-1,1), monomials up to degree 2q-1 with defect <= 2e-15 (q <= %d)' % QMAX,
-        'hypotheses of the theorems: partition of unity / derivatives summing to zero at the quadrature points (C02) are explicit hypotheses',
+        'theorems biform_1d_entry / biform_asym_entry: the assembled matrix of the model is the Gram matrix of the Cox-de Boor '
+        'reference derivatives at the quadrature nodes (uses C02 active_derivs_eq_spec, dN_local); mass_sum_bspline, mass_sum_domain, '
+        'stiff_kernel_bspline, biform_1d_symmetric/_psd discharge the partition-of-unity / derivative-sum hypotheses with C02; '
+        'nqp_default_suffices/_exact + generated leggauss_default_exact: default node count vs. table exactness',
         'float tie: |impl - exact model| <= R (rounding bound in the module docstring); structure (mesh, span indices, first-active, shape, stored pattern) exactly',
-        'not covered by theorems: exactness of Gauss-Legendre quadrature for polynomials (bounded check of the tables + linearity), '
+        'not covered by theorems: the piecewise-polynomial structure of dNref on a span (degree <= p-k), exactness of Gauss-Legendre '
+        'quadrature beyond the bounded check of the tables + linearity, '
         'unisolvence (definiteness, dimension of the kernel: checked numerically and by exact rank on the oracle), '
         'the ACA-based C++ assembler fastasm.cc (tolerance test only), NURBS area (coarse 1% check)',
     ]
@@ -956,7 +960,7 @@ def run(ctx):
         # self-test: a case whose implementation value is perturbed by 4x its bound must be flagged
         selftest = None
         for k, (c, r) in enumerate(zip(cases, results)):
-            if c['kind'] == '1d' and r['status'] == 'Ok' and c['p'] in (1, 2) and r['shape'] == [len(c['kv']) - c['p'] - 1] * 2:
+            if tables_ok and c['kind'] == '1d' and r['status'] == 'Ok' and c['p'] in (1, 2) and r['shape'] == [len(c['kv']) - c['p'] - 1] * 2:
                 kv, p = kvF(c)
                 _, R, _, _ = orc.exact_biform(kv, p, kv, p, c['du'], c['dv'], orc.mesh_of(kv), c['wf'], c['nqp'])
                 A = np.load(r['A'])
@@ -1008,6 +1012,7 @@ def run(ctx):
                        'generic on unit cube / axis-aligned scalings for every permutation of degrees (1,2,3) in 3D, mixed degrees in 2D '
                        '(entries within 4 tol, stored pattern, sum = measure, K*1 = 0); one evaluation = one case')
     ctx.cov['input_distribution'] = dist
+    ctx.cov['exhaustive'] = False
     for k, (c, r) in enumerate(zip(cases, results)):
         if c['kind'] in ('1d', 'asym') and k % 9 == 0:
             ctx.sample({kk: v for kk, v in replay_of(c).items() if kk not in ('kv', 'how')})
@@ -1044,5 +1049,8 @@ META = {
                  'exact Qc model of the 1D assemblers tied to the implementation (structure exactly, floats within a derived bound) with the '
                  'Gauss tables regenerated from numpy and checked in Coq; independent exact piecewise-polynomial oracle for every route',
     'level_text': 'see coq/C09/Props.v; tie and oracle: harness/props/c09.py',
-    'level_note': 'partial: Gauss exactness only as bounded table check + linearity; definiteness / kernel dimension numerically and by exact rank; fastasm.cc tolerance test only',
+    'level_note': 'proved: assembled 1D matrices (symmetric and two-space routine) = Gram matrices of the reference B-spline derivatives for every kv_ok '
+                  'knot vector, hence sum = |domain|, K*1 = 0, symmetry, PSD for the model\'s output; default nqp is the least sufficient node count. '
+                  'partial: polynomial structure per span + Gauss exactness only as bounded table check + linearity; definiteness / kernel dimension '
+                  'numerically and by exact rank; fastasm.cc tolerance test only',
 }
